@@ -515,6 +515,88 @@ fn describe(k: &LineKind) -> String {
     }
 }
 
+/// The facade crates gate their macros on the optional dependency (`unic-langid-macros`,
+/// `unic-locale-macros`); the feature `macros` only forwards to it.  A user can enable either name.
+/// The generated programs are built with `macros`; this small program is built with the
+/// dependency-named features and uses every macro once -- a macro that is gated on one name and
+/// re-exported under the other is missing here.
+fn check_dep_named_features(ctx: &Ctx, rep: &mut Report, coll: &Collector) {
+    let dir = format!("{}/work/c16cfg", crate::verif_dir());
+    let t0 = std::time::Instant::now();
+    let r = (|| -> Result<(), String> {
+        std::fs::create_dir_all(format!("{}/src", dir)).map_err(|e| e.to_string())?;
+        let toml = format!(
+            "[package]\nname = \"c16cfg\"\nversion = \"0.0.0\"\nedition = \"2021\"\n\n[dependencies]\nunic-langid = {{ path = \"{r}/unic-langid\", features = [\"unic-langid-macros\"] }}\nunic-locale = {{ path = \"{r}/unic-locale\", features = [\"unic-locale-macros\"] }}\n\n[workspace]\n\n[profile.dev]\nopt-level = 0\ndebug = false\nincremental = false\n",
+            r = ctx.repo
+        );
+        std::fs::write(format!("{}/Cargo.toml", dir), toml).map_err(|e| e.to_string())?;
+        if !std::path::Path::new(&format!("{}/Cargo.lock", dir)).exists() {
+            let mc_src = std::env::var("VERIF_MC_SRC").unwrap_or_else(|_| "/verif/mc".to_string());
+            let seeds = [format!("{}/Cargo.lock", ctx.repo), format!("{}/locks/c16.lock", mc_src)];
+            let seed = seeds.iter().find(|p| std::path::Path::new(p).exists()).ok_or_else(|| "no Cargo.lock to seed the generated package from".to_string())?;
+            std::fs::copy(seed, format!("{}/Cargo.lock", dir)).map_err(|e| e.to_string())?;
+        }
+        let main = r#"use unic_langid::{lang, langid, langid_slice, langids, region, script, variant, LanguageIdentifier};
+use unic_langid::subtags::{Language, Region, Script, Variant};
+use unic_locale::{locale, locales, Locale};
+fn main() {
+    let mut bad = 0;
+    let mut t = |name: &str, ok: bool| { if !ok { println!("MISMATCH {}", name); bad += 1; } };
+    t("lang!", lang!("en") == "en".parse::<Language>().unwrap());
+    t("script!", script!("Latn") == "Latn".parse::<Script>().unwrap());
+    t("region!", region!("US") == "US".parse::<Region>().unwrap());
+    t("variant!", variant!("valencia") == "valencia".parse::<Variant>().unwrap());
+    t("langid!", langid!("en-Latn-US-valencia") == "en-Latn-US-valencia".parse::<LanguageIdentifier>().unwrap());
+    let v: Vec<LanguageIdentifier> = langids!["en-US", "pl",];
+    t("langids!", v == vec!["en-US".parse::<LanguageIdentifier>().unwrap(), "pl".parse().unwrap()]);
+    let s: &[LanguageIdentifier] = langid_slice!["en-US", "pl"];
+    t("langid_slice!", s == &v[..]);
+    t("locale!", locale!("en-US-u-ca-buddhist") == "en-US-u-ca-buddhist".parse::<Locale>().unwrap());
+    let l: Vec<Locale> = locales!["en-US", "de-t-en",];
+    t("locales!", l == vec!["en-US".parse::<Locale>().unwrap(), "de-t-en".parse().unwrap()]);
+    println!("DONE {}", bad);
+}
+"#;
+        std::fs::write(format!("{}/src/main.rs", dir), main).map_err(|e| e.to_string())?;
+        Ok(())
+    })();
+    if let Err(e) = r {
+        rep.engine_failures.push(format!("cannot write the c16cfg package: {}", e));
+        return;
+    }
+    let target = std::env::var("VERIF_C16_TARGET").unwrap_or_else(|_| format!("{}/work/target-c16", crate::verif_dir()));
+    let out = std::process::Command::new("cargo")
+        .args(["run", "--offline", "-q"])
+        .current_dir(&dir)
+        .env("CARGO_TARGET_DIR", format!("{}-cfg", target))
+        .env("CARGO_NET_OFFLINE", "true")
+        .env("CARGO_TERM_COLOR", "never")
+        .env_remove("RUSTFLAGS")
+        .output();
+    match out {
+        Ok(o) => {
+            let so = String::from_utf8_lossy(&o.stdout).to_string();
+            let se = String::from_utf8_lossy(&o.stderr).to_string();
+            if !o.status.success() || !so.contains("DONE 0") {
+                let first = se.lines().find(|l| l.starts_with("error")).unwrap_or("").to_string();
+                coll.push(0, Violation {
+                    sub: "c16.config",
+                    class: "built with the dependency-named features (unic-langid-macros, unic-locale-macros) a macro is missing or differs from run-time parsing".into(),
+                    case: Case::Text("config:dep-named-features".into()),
+                    expected: "every macro available and equal to run-time parsing".into(),
+                    observed: format!("{} {}", so.lines().filter(|l| l.starts_with("MISMATCH")).collect::<Vec<_>>().join("; "), first),
+                });
+            }
+        }
+        Err(e) => rep.engine_failures.push(format!("cannot run cargo for c16cfg: {}", e)),
+    }
+    rep.states += 9;
+    rep.transitions += 9;
+    rep.traces += 9;
+    rep.evaluations += 9;
+    rep.extra.insert("dep_named_features".into(), json!({"kind": "one program using all nine macros, built with the features unic-langid/unic-langid-macros and unic-locale/unic-locale-macros (the optional dependencies' own names) instead of `macros`", "invocations": 9, "wall_s": (t0.elapsed().as_secs_f64() * 100.0).round() / 100.0}));
+}
+
 pub fn run_c16(ctx: &Ctx) -> Report {
     let mut rep = Report::new();
     let (good, bad, either) = invocations(ctx);
@@ -527,6 +609,7 @@ pub fn run_c16(ctx: &Ctx) -> Report {
         out
     };
     let coll = std::mem::take(&mut rep.collector);
+    check_dep_named_features(ctx, &mut rep, &coll);
     let mut engine_fail = vec![];
     // ---------------- good programs
     let mut good_bins: Vec<Bin> = split(&good, nbins).iter().enumerate().map(|(i, v)| gen_good(&format!("good_{}", i), v, true)).collect();
